@@ -33,6 +33,7 @@ TableOk(r) == /\ r.attr_names = AttrOrder
 Verdict(r) == IF r.kind = "table" THEN TableOk(r) \/ PrintT(<<"MISMATCH", l>>)
               ELSE IF ExplainedBy(r, Corners) THEN TRUE
               ELSE /\ PrintT(<<"MISMATCH", l>>)
-                   /\ \A d \in {"StAsCsi", "SkipEmptyParam"} : ExplainedBy(r, Corners \cup {d}) => PrintT(<<"DEV", l, d>>)
+                   /\ LET hit == SelectSeq([i \in 1..Len(DevSets) |-> i], LAMBDA i : ExplainedBy(r, Corners \cup DevSets[i]))
+                      IN hit # <<>> => PrintT(<<"DEV", l, DevNames[hit[1]]>>)
 JInv == Verdict(TraceLog[l])
 ================================================================================
